@@ -1,2 +1,6 @@
 import FsProofs.C12
 import FsProofs.C01
+import FsProofs.C05
+import FsProofs.C06
+import FsProofs.C10
+import FsProofs.C11
